@@ -239,6 +239,7 @@ def run_stage_in_worker(stage: Stage, tier: str, seed: int, shard: int, nshards:
 
 def worker_main(args):
     out = {"stages": [], "error": None, "corpus": []}
+    os.environ["VERIF_SHARD"] = str(args.shard)  # read by vlib.sut at import time (logging on/off, cache preheating)
     try:
         prop = load_prop(args.pid)
         stages = {s.name: s for s in prop.STAGES}
